@@ -46,6 +46,7 @@ FIXED = [
  (["C10"], "6f0885a", "D60", "set_volume(number) stored a 0-dim tensor: every density sampling call afterwards raised 'len() of a 0-d tensor' in compute_n_from_density; noticed by a seeding sub-agent, confirmed with the C10 monitor's new density-after-set_volume step"),
  (["C02", "C11"], "d860d83", "D61", "ShapelyPolygon.sample_random_uniform(n) returned more than n rows for non-convex polygons whose triangulation has triangles partly outside the polygon (20035 rows for n=20000); found by the C11 monitor after notch polygons were added"),
  (["C10"], "33c46ba", "D63", "Triangle.sample_grid(d=...) returned a few more than ceil(d*area) points for large counts (3008 for 3000: the diagonal of the barycentric grid); found by the thorough tier of the C10 monitor"),
+ (["C01", "C02"], "b1de507", "D64", "TrimeshPolyhedron._contains / TrimeshBoundary._contains raised 'need at least one array to concatenate' for an empty set of points (density sampling on Boolean boundaries with a polyhedron operand and a small density); found by the thorough tiers of C01 / C02"),
 ]
 
 OPEN = [
